@@ -9,11 +9,11 @@ EXPLANATION = (
     "as R09.5: inductive cursor invariants, check_escaped lemma). R16.2: every Ok of parse_key_paths requires the rest to be empty. R16.3: key_path "
     "tries signed integer, then quoted string, then plain name, and no alternative is shadowed. R16.4: KeyPath prints indices and names with "
     "Display and quoted names as \"{}\", KeyPaths prints { , }, which are the grammar's own characters. R16.5: complete combinators only. R16.6: escape "
-    "widths of the shared scanners agree with the decoding pass. NOT decided: completeness, spacing variants, escape decoding results.")
+    "widths of the shared scanners agree with the decoding pass. R16.7: the plain-name scanner stops at the list delimiters and at both signs. R16.8: the index alternative puts no constraint on the character after the integer. NOT decided: completeness, spacing variants in general, escape decoding results.")
 
 
 def check(ctx, run):
-    run.rules_run = ['R16.1', 'R16.2', 'R16.3', 'R16.4', 'R16.5', 'R16.6']
+    run.rules_run = ['R16.1', 'R16.2', 'R16.3', 'R16.4', 'R16.5', 'R16.6', 'R16.7', 'R16.8']
     safety.panic_inventory(ctx, run, 'R16.1', ROOTS, floor=20, only=lambda p: p.startswith('jsonpath::parser::') or p.startswith('util::') or p.startswith('keypath::'))
     parsers.whole_input(ctx, run, 'R16.2', 'keypath::parse_key_paths', 'InvalidKeyPath')
     tabs = parsers.r09_8(ctx, run, 'R16.3', ('keypath::',), 2)
@@ -24,6 +24,8 @@ def check(ctx, run):
             ok = kinds == want
             (run.proved if ok else run.violation)('R16.3', fn, 'order', 'index, then quoted name, then plain name' if ok else f'alternatives are tried in the order {kinds}, not {want}')
     parsers.r16_4(ctx, run)
+    parsers.r16_7(ctx, run)
+    parsers.r16_8(ctx, run, tabs)
     parsers.r09_4(ctx, run, 'R16.5', ROOTS)
     parsers.r_widths(ctx, run, 'R16.6')
     textparser.r02_12(ctx, run, rule='R16.6/R02.12')
